@@ -9,7 +9,7 @@ for f in $files; do
     if ! cmp -s "$f" "$DST/$f"; then
       case "$f" in
         lean/Driver/Util.lean) echo "SKIP(shared, differs) $f";;
-        lean/Driver/$ID.lean|lean/Driver/${ID}_*.lean|checks/$idl.py|checks/${idl}_*.py|lean/XalanModel/Props/$ID.lean|harness/${idl}_*|translate/${idl}_*|gen/${idl}_*|gen/corpus/$idl/*|design/$ID.md|proposed/$ID-*|lean/XalanModel/$ID/*) mkdir -p $(dirname $DST/$f); cp "$f" "$DST/$f"; echo "UPDATE $f";;
+        lean/Driver/$ID.lean|lean/Driver/${ID}_*.lean|checks/$idl.py|checks/${idl}_*.py|lean/XalanModel/Props/$ID.lean|harness/${idl}_*|translate/${idl}_*|translate/_${idl}_*|gen/${idl}_*|gen/corpus/$idl/*|design/$ID.md|proposed/$ID-*|lean/XalanModel/$ID/*) mkdir -p $(dirname $DST/$f); cp "$f" "$DST/$f"; echo "UPDATE $f";;
         *) if [ "$ID" = "C20" ] && [[ "$f" == lean/XalanModel/Containers/* ]]; then cp "$f" "$DST/$f"; echo "UPDATE $f"; else echo "CONFLICT $f (exists in /verif and differs)"; fi;;
       esac
     fi
